@@ -68,7 +68,11 @@ def _mk_array(case):
     (a distance matrix of counts / edit distances), and integer-valued parameters then as Python ints."""
     import numpy as np
     if case.get('int_dtype') and all(float(v).is_integer() for v in case['vals']):
-        return np.array([int(v) for v in case['vals']], dtype=np.int64).reshape(case['shape']), True
+        dt = case['int_dtype'] if isinstance(case['int_dtype'], str) else 'int64'
+        info = np.iinfo(dt)
+        if not all(info.min <= v <= info.max for v in case['vals']):
+            dt = 'int64'      # the narrow / unsigned type cannot hold these values
+        return np.array([int(v) for v in case['vals']], dtype=dt).reshape(case['shape']), True
     return np.array(case['vals'], dtype=float).reshape(case['shape']), False
 
 
@@ -96,7 +100,7 @@ def d2s_case(draw):
     mname = draw(st.sampled_from([m, m, m.upper(), m.capitalize()]))
     return {'vals': vals, 'shape': shape, 'method': mname,
             'r': draw(st.one_of(st.none(), POS)), 'a': draw(st.one_of(st.none(), st.none(), POS)),
-            'cq': draw(_cq()), 'int_dtype': draw(st.booleans())}
+            'cq': draw(_cq()), 'int_dtype': draw(st.sampled_from([False, False, False, True, True, 'uint8', 'uint16', 'int16', 'uint64']))}
 
 
 @st.composite
@@ -108,7 +112,7 @@ def squash_case(draw):
                                  st.sampled_from([0.0, 1.0, 2.5]))),
             'base': draw(st.one_of(st.none(), st.none(), st.sampled_from([2.0, 10.0]),
                                    st.floats(1.01, 10.0, allow_nan=False))),
-            'keep_sign': draw(st.booleans()), 'cq': draw(_cq()), 'int_dtype': draw(st.booleans())}
+            'keep_sign': draw(st.booleans()), 'cq': draw(_cq()), 'int_dtype': draw(st.sampled_from([False, False, False, True, True, 'uint8', 'uint16', 'int16', 'uint64']))}
 
 
 def _cq_lib(cq):
